@@ -415,6 +415,32 @@ func TestEnumerateLimitProjection(t *testing.T) {
 	rec.ExhaustiveSub("limits -1..n+1 over every match pattern of lists of 0-5 cards; projections over every subset of 5 property names x all-properties x VERSION present/absent x nil query")
 }
 
+// Engine E3c: a repeated property whose later instance is marked as the preferred one (PREF=1, TYPE=pref): the
+// statement knows no preference; the reference accepts "first instance" and "some instance" and nothing else.
+func TestPreferredInstances(t *testing.T) {
+	if vev.ReplayFile() != "" {
+		t.Skip()
+	}
+	k := 0
+	for _, vals := range [][2]string{{"a", "b"}, {"b", "a"}, {"ab", "a"}, {"a", "ab"}} {
+		for _, pref := range [][]int{nil, {2}, {3}} {
+			card := Card{Path: "/c/p", ETag: "e", Fields: []Fld{{"VERSION", "4.0"}, {"FN", "n"}, {"EMAIL", vals[0]}, {"EMAIL", vals[1]}}, Pref: pref}
+			for _, ty := range []string{"equals", "contains", "starts-with", "ends-with"} {
+				for _, neg := range []bool{false, true} {
+					for _, tx := range []string{"a", "b", "ab"} {
+						k++
+						if !vev.MyShare(k) {
+							continue
+						}
+						c := Case{Mode: "match", Q: Q{PFs: []PF{{Name: "EMAIL", TMs: []TM{{Text: tx, Neg: neg, Type: ty}}}}}, Cards: []Card{card}}
+						run(t, nil, c, "E3c/preferred")
+					}
+				}
+			}
+		}
+	}
+}
+
 // Engine E3b: lists far beyond any plausible preallocation or batch size.
 func TestLargeLists(t *testing.T) {
 	if vev.ReplayFile() != "" {
